@@ -38,6 +38,11 @@ ENCODINGS = {
     'utf-32-le': ('utf-32', b'', 'utf-32-le'),
     'utf-32-be': ('utf-32', b'', 'utf-32-be'),
 }
+# other legal spellings of the same codecs (python normalises codec names)
+for _alias, _name in (('utf16', 'utf-16'), ('UTF_16', 'utf-16'), ('U16', 'utf-16'), ('UTF-16', 'utf-16'),
+                      ('utf32', 'utf-32'), ('utf_32', 'utf-32'), ('U32', 'utf-32'), ('utf8', 'utf-8'),
+                      ('UTF8', 'utf-8'), ('latin1', 'latin-1'), ('iso-8859-1', 'latin-1'), ('L1', 'latin-1')):
+    ENCODINGS[_alias] = ENCODINGS[_name]
 MAIN = ['utf-8', 'utf-16', 'utf-32', 'latin-1']
 # the model palette: 'a', 'e acute', euro sign, grinning face (astral), combining acute
 PALETTE = [0x61, 0xE9, 0x20AC, 0x1F600, 0x301]
@@ -45,7 +50,7 @@ PALETTE_WIDTHS = {'utf-8': [1, 2, 3, 4, 2], 'utf-16': [2, 2, 2, 4, 2], 'utf-32':
 
 
 def palette(enc):
-    return PALETTE[:2] if enc == 'latin-1' else PALETTE
+    return PALETTE[:2] if ENCODINGS[enc][0] == 'latin-1' else PALETTE
 
 
 def consts(enc, **kw):
@@ -211,7 +216,7 @@ SPECIALS = [0, 0x0A, 0x0D, 0x7F, 0x80, 0xFF, 0x100, 0x7FF, 0x800, 0x301, 0x20AC,
 
 
 def random_cp(rng, enc):
-    if enc == 'latin-1':
+    if ENCODINGS[enc][0] == 'latin-1':
         return rng.choice([rng.randint(0, 255), rng.randint(0x80, 0xFF), 0x61, 0xE9, 0, 0xFF])
     k = rng.randrange(8)
     if k == 0:
@@ -410,7 +415,7 @@ def main(tier, replay):
     nrand = 1600 if thorough else 320
     n_random = 0
     for k in range(nrand):
-        enc = MAIN[k % 4] if rng.random() < 0.85 else rng.choice(sorted(ENCODINGS))
+        enc = MAIN[k % 4] if rng.random() < 0.7 else rng.choice(sorted(ENCODINGS))
         fam, bom, ref = ENCODINGS[enc]
         strings = random_strings(rng, enc, long_ok=(k % 5 == 0))
         total = len(bom) + sum(len(s.encode(ref)) for s in strings)
